@@ -48,17 +48,30 @@ theorem C03_net_xml_cov (t : TrigFns K) (net : PE.Net K) (np : NetProblem K) (u 
   rw [← qxxVal_ok a _ _ q hq]
   exact h1 i j
 
-/-- the upper half of the range fact for `ind[]` (hypotheses `… ≤ (toProblem np).n` of `C03_net_xml_cov_ginverse` hold
-    for every position `1 ≤ i ≤ dim`): every row of the XML matrix is an unknown number `≤ pocet_neznamych_`.
-    PARTIAL — the full statement is `∀ k ∈ ind, 1 ≤ k ∧ k ≤ np.n`.  Missing: `1 ≤ k` for the `index_y()` entries (the
-    writer tests only `index_x() != 0` before appending `index_y()`; `1 ≤ index_y()` needs the pass invariant
-    "x is touched iff y is touched" of the regenerated linearisation, which is not yet a lemma).  `1 ≤ k` holds by
-    the writer's own tests for `index_x()`, `index_z()` (`bxy`, `bz`) and for orientations (`o.i = j + 1`). -/
+/-- **the range fact for `ind[]`**: every row of the XML matrix is an unknown number `1 … pocet_neznamych_` (so the
+    accessor `qxx(ind[i], ind[j])` is called inside `1 … n` for every position `1 ≤ i, j ≤ dim`).
+    Upper half: an index of an active point was handed out by this pass (`pe_ind_le`).  Lower half (`pe_ind_pos`):
+    `index_x()`, `index_z()` by the writer's own tests (`bxy`, `bz`), orientations by `o.i = j + 1`, and
+    `index_y()` — which the writer appends under the test of `index_x() != 0` ONLY — because in the state
+    `project_equations()` leaves, `singular_coords` returned `false`: every `active_xy()`, non-fixed point has
+    `index_x() != 0 && index_y() != 0` (a point with a single one of the two, reachable since /repo 3fb8708 registers
+    X and Y separately — e.g. a point whose only observation is a `dx` — is `set_unused_xy()` and the call repeats),
+    and a fixed point has `index_x() == 0` (`Fresh.notfree_xy_zero`: the regenerated linearisation touches only
+    coordinates guarded by `free_xy()`). -/
+theorem C03_net_xml_ind_range (t : TrigFns K) (net : PE.Net K) (np : NetProblem K) (u : Unknowns K)
+    (hpe : @projectEquations K (trigOfField t) net = .ok (np, u)) :
+    ∀ k ∈ indList (xmlPtsOf u) (orisOf u), 1 ≤ k ∧ k ≤ np.n := fun k hk =>
+  ⟨@pe_ind_pos K (trigOfField t) net np u hpe
+      (@Props.C12.C12_hori_of_project_equations K (trigOfField t) net np u hpe) k hk,
+   @pe_ind_le K (trigOfField t) net np u hpe (@C01.C01_pe_unknowns K (trigOfField t) net np u hpe).1
+      (@Props.C12.C12_hori_of_project_equations K (trigOfField t) net np u hpe) k hk⟩
+
+/-- the former name (rounds 8–11 proved the upper half only); kept as an alias of the upper half of
+    `C03_net_xml_ind_range` -/
 theorem C03_net_xml_ind_range_partial (t : TrigFns K) (net : PE.Net K) (np : NetProblem K) (u : Unknowns K)
     (hpe : @projectEquations K (trigOfField t) net = .ok (np, u)) :
     ∀ k ∈ indList (xmlPtsOf u) (orisOf u), k ≤ np.n :=
-  @pe_ind_le K (trigOfField t) net np u hpe (@C01.C01_pe_unknowns K (trigOfField t) net np u hpe).1
-    (@Props.C12.C12_hori_of_project_equations K (trigOfField t) net np u hpe)
+  fun k hk => (C03_net_xml_ind_range t net np u hpe k hk).2
 
 end net
 
@@ -71,10 +84,10 @@ attribute [local instance 2000] scalarOfField
     `project_equations()`): there is ONE matrix `Q` — symmetric, positive semi-definite, `N Q N = N`, `Q N Q = Q` for
     `N = AᵀPA`, `P = m0_apr²·Σ⁻¹`, of the ORIGINAL system, belonging to `min_x_`, `= N⁻¹` when the defect is 0 — such
     that the number streamed at position `(i, j)` of `<cov-mat>` is `m0²·Q(ind[i], ind[j])`, written on the band and
-    read back exactly.  Range hypotheses `hi`, `hj` (`1 ≤ ind[i] ≤ n`) are KEPT: the upper halves hold for all
-    `1 ≤ i ≤ dim` by `C03_net_xml_ind_range_partial`; the lower half is open for `index_y()` entries only (see there). -/
+    read back exactly.  No range hypothesis on `ind[]`: for every position `1 ≤ i, j ≤ dim` the entries `ind[i]`,
+    `ind[j]` lie in `1 … n` (`C03_net_xml_ind_range`; stated in the conclusion, where it types the `Fin` indices). -/
 theorem C03_net_xml_cov_ginverse (t : TrigFns K) (net : PE.Net K) (np : NetProblem K) (u : Unknowns K)
-    (hpe : @projectEquations K (trigOfField t) net = .ok (np, u)) (hna : ∀ ob ∈ revisedObs u.net, NoAlias ob)
+    (hpe : @projectEquations K (trigOfField t) net = .ok (np, u))
     (hm0 : np.m0 ≠ 0)
     (Pc : Matrix (Fin (toProblem np).m) (Fin (toProblem np).m) K) (hPc : Sigma np * Pc = 1)
     (alg : Alg) (hyp : Net.SolverHyp alg np) (a : NetAnswer K) (hs : netSolve alg np = .ok a)
@@ -88,8 +101,9 @@ theorem C03_net_xml_cov_ginverse (t : TrigFns K) (net : PE.Net K) (np : NetProbl
     ∃ Q : Matrix (Fin (toProblem np).n) (Fin (toProblem np).n) K,
       Qᵀ = Q ∧ (∀ y, 0 ≤ y ⬝ᵥ Q *ᵥ y) ∧ N * Q * N = N ∧ Q * N * Q = Q ∧
       BelongsTo (toProblem np).A (toProblem np).S Q ∧ (a.defect = 0 → Q = N⁻¹) ∧
-      (∀ i j (hi : 1 ≤ ind.getD (i - 1) 0 ∧ ind.getD (i - 1) 0 ≤ (toProblem np).n)
-             (hj : 1 ≤ ind.getD (j - 1) 0 ∧ ind.getD (j - 1) 0 ≤ (toProblem np).n),
+      (∀ i j, 1 ≤ i → i ≤ dim → 1 ≤ j → j ≤ dim →
+        ∃ (hi : 1 ≤ ind.getD (i - 1) 0 ∧ ind.getD (i - 1) 0 ≤ (toProblem np).n)
+          (hj : 1 ≤ ind.getD (j - 1) 0 ∧ ind.getD (j - 1) 0 ≤ (toProblem np).n),
         cov i j = m0 * m0 * Q ⟨ind.getD (i - 1) 0 - 1, by omega⟩ ⟨ind.getD (j - 1) 0 - 1, by omega⟩) ∧
       (write cov dim band).flt = emitFlt cov dim (clip band dim) ∧
       (∃ C : CovMat K, read (write cov dim band) = .ok C ∧ C.dim = dim ∧ C.band = clip band dim ∧
@@ -98,9 +112,17 @@ theorem C03_net_xml_cov_ginverse (t : TrigFns K) (net : PE.Net K) (np : NetProbl
   intro ind dim cov N
   obtain ⟨_, Q, _, _, _, _, _, hq, _, hsym, hpsd, hN1, hN2, hbel, hinv, _⟩ :=
     C03_net_cofactors alg np (C01.C01_pe_dimsN t net np u hpe)
-      (@C01.C01_pe_rowsOK K (trigOfField t) net np u hpe hna) hm0 Pc hPc hyp a hs
+      (@C01.C01_pe_rowsOK K (trigOfField t) net np u hpe) hm0 Pc hPc hyp a hs
   obtain ⟨h1, h2, h3, h4⟩ := C03_net_xml_cov t net np u hpe alg a hs act m0 hm band hb g e he inv
-  refine ⟨Q, hsym, hpsd, hN1, hN2, hbel, hinv, fun i j hi hj => ?_, h2, h3, h4⟩
+  have hrange : ∀ i, 1 ≤ i → i ≤ dim → 1 ≤ ind.getD (i - 1) 0 ∧ ind.getD (i - 1) 0 ≤ (toProblem np).n := by
+    intro i h1i hid
+    have hlt : i - 1 < ind.length := by show i - 1 < dim; omega
+    rw [List.getD_eq_getElem?_getD, List.getElem?_eq_getElem hlt, Option.getD_some]
+    exact C03_net_xml_ind_range t net np u hpe _ (List.getElem_mem hlt)
+  refine ⟨Q, hsym, hpsd, hN1, hN2, hbel, hinv, fun i j hi1 hi2 hj1 hj2 => ?_, h2, h3, h4⟩
+  have hi := hrange i hi1 hi2
+  have hj := hrange j hj1 hj2
+  refine ⟨hi, hj, ?_⟩
   refine h1 i j _ ?_
   have := hq ⟨ind.getD (i - 1) 0 - 1, by omega⟩ ⟨ind.getD (j - 1) 0 - 1, by omega⟩
   simp only at this
